@@ -117,15 +117,25 @@ class Ctx:
         cmd = ["tlc", module + ".tla", "-config", cfg, "-metadir", meta, "-workers", str(workers or "auto"),
                "-noGenerateSpecTE"] + list(args)
         t = time.time()
+        # the exported behaviours can be hundreds of megabytes: TLC writes to a file, only the other lines are kept in memory
+        self._ntlc = getattr(self, "_ntlc", 0) + 1
+        outpath = os.path.join(self.tmp, "tlc-%d-%d.out" % (os.getpid(), self._ntlc))
         try:
-            p = subprocess.run(cmd, cwd=cwd, env=e, capture_output=True, text=True, timeout=timeout)
+            with open(outpath, "w") as fo:
+                p = subprocess.run(cmd, cwd=cwd, env=e, stdout=fo, stderr=subprocess.STDOUT, text=True, timeout=timeout)
         except subprocess.TimeoutExpired:
             subprocess.run(["pkill", "-f", meta], capture_output=True)
             raise Inconclusive("TLC timed out after %ds on %s/%s" % (timeout, module, cfg))
         finally:
             shutil.rmtree(meta, ignore_errors=True)
-        out = p.stdout + p.stderr
+        keep = []
+        with open(outpath, errors="replace") as fi:
+            for line in fi:
+                if not (line.startswith('<<"CASE"') or line.startswith('<<"BAD"')):
+                    keep.append(line)
+        out = "".join(keep)
         res = TlcResult(module, cfg, p.returncode, out, time.time() - t)
+        res.path = outpath
         if count:
             self.cov["states"] += res.distinct
             self.cov["transitions"] += res.generated
